@@ -23,6 +23,8 @@ INITIALS = [  # (file content or None, writable)
     (bytes(range(1, 17)), True), (bytes(range(1, 25)), True), (bytes(range(1, 9)), True), (bytes(range(1, 65)), True), (b"\x07", True),
     (bytes(range(1, 49)), True),
     # valid 32-byte keys with unusual content: used verbatim like any other
+    # 32 bytes written in another notation (hex digits, base64) are NOT a key file: only the size counts
+    (bytes(range(1, 33)).hex().encode(), True), (b"QUJDREVGR0hJSktMTU5PUFFSU1RVVldYWVphYmNkZWY=", True), (bytes(range(1, 33)) + b"\n", True),
     (bytes(32), True), (b"\xff" * 32, True), (b" " * 32, True), (b"\n" + bytes(range(2, 32)) + b"\n", True),
 ]
 METHODS = ["xor", "aes", "best", "bogus"]
